@@ -29,6 +29,8 @@ package server
 //@   loop 1 invariant forall p int :: 0 <= p && p < len(system) ==> exists q int :: 0 <= q && q < n && msgs[q].Role == "system" && system[p].Role == msgs[q].Role && system[p].Content == msgs[q].Content
 //@   loop 1 invariant n < len(msgs) - 1 ==> i == n - 1
 //@   loop 1 invariant n < len(msgs) - 1 ==> forall q int :: 0 <= q && q < n && msgs[q].Role == "system" ==> exists p int :: 0 <= p && p < len(system) && system[p].Role == msgs[q].Role && system[p].Content == msgs[q].Content
+//@   loop 1 invariant cap(system) == 0 || fresh(system)
+//@   loop 2 invariant fresh(system)
 //@   loop 2 invariant forall p int :: 0 <= p && p < len(system) ==> exists q int :: 0 <= q && q < j && msgs[q].Role == "system" && system[p].Role == msgs[q].Role && system[p].Content == msgs[q].Content
 //@   loop 2 invariant forall q int :: 0 <= q && q < j && msgs[q].Role == "system" ==> exists p int :: 0 <= p && p < len(system) && system[p].Role == msgs[q].Role && system[p].Content == msgs[q].Content
 //@   loop 4 invariant forall p int :: 0 <= p && p < len(system) ==> exists q int :: 0 <= q && q < currMsgIdx && msgs[q].Role == "system" && system[p].Role == msgs[q].Role && system[p].Content == msgs[q].Content
